@@ -10,7 +10,14 @@ clock) with logging actions, and Coq evaluates the model on the same history
 reading, exceptions of top-level calls, the clock after every top-level call.
 Oracle: vt.oracle_vt, a direct predicate of the statement on the implementation's
 trace (pending-set replay: order, FIFO, clock at run, monotone clock, cancelled
-never run, advance/start exactness, sleep)."""
+never run, advance/start exactness, sleep moves the clock and runs nothing, no
+action runs outside start()/advance_*() or while another action is running).
+
+Added after the coverage audit: start() / advance_to() / advance_by() issued from
+INSIDE an action (the `_is_enabled` guards; only nesting is judged), the
+"sleep runs nothing" clause, and raising actions on the plain schedulers (what
+happens after an exception left start() is outside the statement: modelled and
+compared, not judged by the oracle)."""
 import itertools
 import json
 
@@ -40,6 +47,30 @@ def alphabet():
     return A
 
 
+def nested_family():
+    """start()/advance_to()/advance_by() issued from inside an action, with another action pending
+    that a nested run loop would run: every nested call x position in the body x due time of the
+    other action x outer driver"""
+    L = -7
+    nests = [["nstart"], ["nadvby", 0], ["nadvby", U], ["nadvby", 5 * U], ["nadvby", -U],
+             ["nadvto", 0], ["nadvto", U], ["nadvto", 3 * U]]
+    out = []
+    for w1 in (["now"], ["rel", U], ["abs", U]):
+        for nest in nests:
+            for body in ([nest], [["sched", ["now"], L, []], nest], [nest, ["sched", ["rel", U], L, []]]):
+                for w2 in (["now"], ["abs", U], ["abs", 2 * U]):
+                    for drive in (["start"], ["advto", 2 * U], ["advby", U]):
+                        out.append([["do", ["sched", w1, L, body]], ["do", ["sched", w2, L, []]], drive,
+                                    ["start"]])
+    # the same after stop() in the body: the call really re-enters the loop (nothing about it is judged
+    # except the clauses that hold of every run: order, clock, cancellation)
+    for nest in nests:
+        for drive in (["start"], ["advto", 2 * U]):
+            out.append([["do", ["sched", ["abs", U], L, [["stop"], nest]]], ["do", ["sched", ["abs", 2 * U], L, []]],
+                        ["do", ["sched", ["abs", 4 * U], L, []]], drive, ["start"]])
+    return out
+
+
 def relabel(h):
     n = [0]
 
@@ -63,18 +94,35 @@ def gen_cases(tier, rng):
     if tier == "thorough":
         for tup in itertools.product(A, repeat=3):
             out.append(("vts", 0, relabel(list(tup)), False, "exhaustive3"))
-        n3, nr = 6000, 20000
+        n3, nr, nn = 6000, 20000, 12000
     else:
-        n3, nr = 1200, 1500
+        n3, nr, nn = 1200, 1500, 900
+    NF = nested_family()
+    for world in vt.WORLDS:
+        for i, h in enumerate(NF):
+            if tier == "thorough" or i % 3 == vt.WORLDS.index(world):
+                out.append((world, 0, relabel(h), False, "nested-call"))
     for _ in range(n3):
         world = rng.choice(vt.WORLDS)
         out.append((world, 0, relabel([rng.choice(A) for _ in range(rng.choice([3, 3, 4]))]), False, "sampled3-4"))
     for _ in range(nr):
         world = rng.choice(vt.WORLDS)
         unit = rng.choice([U, 250000, 1000, 1])
-        g = vt.Gen(rng, unit=unit, allow=("cancel", "stop", "sleep"), max_depth=rng.choice([1, 2, 3]))
+        g = vt.Gen(rng, unit=unit, allow=("cancel", "stop", "sleep"), max_depth=rng.choice([1, 2, 3]),
+                   raise_p=rng.choice([0.0, 0.05, 0.05]))
         h = g.history(world, rng.randrange(1, 10))
         out.append((world, rng.choice([0, 0, unit, 3 * unit]), h, rng.random() < 0.5, "random"))
+    for _ in range(nn):
+        # random histories whose action bodies also call start()/advance_to()/advance_by()
+        world = rng.choice(vt.WORLDS)
+        unit = rng.choice([U, 250000, 1000])
+        g = vt.Gen(rng, unit=unit, allow=("cancel", "stop", "sleep"), max_depth=rng.choice([1, 2, 3]),
+                   raise_p=rng.choice([0.0, 0.0, 0.05]), nest_p=rng.choice([0.15, 0.3]),
+                   nest_after_stop=rng.random() < 0.15, nest_advto=rng.random() < 0.4)
+        h = g.history(world, rng.randrange(2, 10))
+        if rng.random() < 0.7:
+            h.append(rng.choice([["start"], ["start"], ["advby", 10 * unit]]))
+        out.append((world, rng.choice([0, 0, unit, 3 * unit]), h, rng.random() < 0.5, "random-nested"))
     return out
 
 
@@ -88,9 +136,54 @@ def features(h):
         f.append("sleep")
     if vt.has(h, ("advto", "advby")):
         f.append("advance")
+    if vt.has(h, ("raise",)):
+        f.append("raise")
+    if vt.has(h, vt.NEST):
+        f.append("nested-call")
     if any(t[0] == "do" and t[1][0] == "sched" and any(c[0] == "sched" for c in t[1][3]) for t in h):
         f.append("nested")
     return f
+
+
+def measure(trace, hist):
+    """coverage counters of the scenario kinds added after the audit (measured on the trace)"""
+    pending, stopped, stuck, exc, top, raised_in_action = {}, False, False, False, None, False
+    for ev in trace:
+        k = ev[0]
+        if k == "top":
+            stopped, exc, top, raised_in_action = False, False, ev, False
+            if stuck and ev[1] in ("start", "start_test", "advto", "advby"):
+                hist["run_loop_calls_while_stuck_after_an_exception"] += 1
+        elif k == "sched":
+            pending[ev[1]] = ev[3]
+        elif k == "cancel":
+            pending.pop(ev[1], None)
+        elif k == "run":
+            pending.pop(ev[1], None)
+        elif k == "stop":
+            stopped, stuck = True, False
+        elif k == "nest":
+            key = ev[1] + ("/after-stop" if stopped else "")
+            hist["nested_calls_executed"][key] = hist["nested_calls_executed"].get(key, 0) + 1
+            if stopped:
+                hist["nested_calls_after_stop (really re-enter, not judged)"] += 1
+            target = None if ev[1] == "nstart" else ev[2] if ev[1] == "nadvto" else ev[3] + ev[2]
+            if not stopped and any(target is None or d <= target for d in pending.values()):
+                hist["nested_calls_with_a_due_item_pending"] += 1
+        elif k == "sleepb":
+            hist["sleep_calls"] += 1
+        elif k == "sleep":
+            if ev[1] > 0 and any(d <= ev[3] for d in pending.values()):
+                hist["sleep_calls_with_a_due_item_pending"] += 1
+        elif k == "raise" and ev[2] > 0:
+            hist["actions_that_raised"] += 1
+            raised_in_action = True
+        elif k == "exc":
+            exc = True
+            hist["top_level_calls_left_by_an_exception"] += 1
+        elif k == "ret":
+            if exc and raised_in_action and top[1] in ("start", "start_test", "advto", "advby"):
+                stuck = True
 
 
 def run(chk):
@@ -100,7 +193,14 @@ def run(chk):
         chk.cov["search"] = "theorem or build broke: scope enlarged to thorough"
     cases = gen_cases(tier, chk.rng)
     gal, failures, nontrivial = [], [], set()
-    hist = {"world": {}, "origin": {}, "feature": {}, "equal_due_pairs": 0, "ran>=2": 0}
+    hist = {"world": {}, "origin": {}, "feature": {}, "equal_due_pairs": 0, "ran>=2": 0,
+            "nested_calls_executed": {}, "nested_calls_with_a_due_item_pending": 0,
+            "nested_calls_after_stop (really re-enter, not judged)": 0,
+            "oracle_only (nadvto / nested call after stop: no model rendering)": 0,
+            "sleep_calls": 0, "sleep_calls_with_a_due_item_pending": 0,
+            "actions_that_raised": 0, "top_level_calls_left_by_an_exception": 0,
+            "run_loop_calls_while_stuck_after_an_exception": 0}
+    gal_cases = []
     for (world, c0, h, iwp, origin) in cases:
         obs, trace = vt.run_impl(world, c0, h, iwp=iwp, timeout=10.0)
         chk.cov["evaluations"] += 1
@@ -115,9 +215,14 @@ def run(chk):
         if len(runs) >= 2:
             hist["ran>=2"] += 1
             nontrivial.add(json.dumps([world, c0, h]))
+        measure(trace, hist)
         for sig, detail in vt.oracle_vt(world, trace):
             failures.append((vt.hsize(h) * 100 + len(json.dumps(h)), sig, world, c0, h, iwp, obs, detail))
-        gal.append((f"({vt.KIND[world]}, {vt.gz(c0)}, {vt.hsize(h)}%nat, {vt.g_history(h)})", vt.g_obs(obs)))
+        if vt.model_ok(h):
+            gal.append((f"({vt.KIND[world]}, {vt.gz(c0)}, {vt.hsize(h)}%nat, {vt.g_history(h)})", vt.g_obs(obs)))
+            gal_cases.append((world, c0, h))
+        else:
+            hist["oracle_only (nadvto / nested call after stop: no model rendering)"] += 1
     # smallest failing input per failure class
     failures.sort(key=lambda f: f[0])
     seen = set()
@@ -139,8 +244,8 @@ def run(chk):
     if bad:
         firsts = [i for i in bad if i >= 0][:3]
         detail = {"n_disagreements": len(bad), "logs": logs[:1],
-                  "first_cases": [{"world": cases[i][0], "c0": cases[i][1], "history": cases[i][2],
-                                   "implementation": cases[i] and gal[i][1]} for i in firsts]}
+                  "first_cases": [{"world": gal_cases[i][0], "c0": gal_cases[i][1], "history": gal_cases[i][2],
+                                   "implementation": gal[i][1]} for i in firsts]}
         if firsts:
             detail["model_says"] = lib.coq_show("C28", IMPORTS, f"model {gal[firsts[0]][0]}", PRELUDE)
         chk.tie_broken("correspondence: Core/VTime.v run vs real scheduler", detail)
@@ -150,8 +255,15 @@ def run(chk):
                        "VirtualTimeScheduler, TestScheduler, HistoricalScheduler (thorough: also all of length 3 on "
                        "VirtualTimeScheduler); plus seeded samples of length 3..4 over the alphabet and random "
                        "histories (nesting depth <= 3, 1..9 calls, time units 1 s / 0.25 s / 1 ms / 1 us, negative "
-                       "delays, int and float arguments).  non-trivial = distinct (world, c0, history) in which at "
-                       "least two actions ran")
+                       "delays, int and float arguments; raise probability 0 / 0.05 per command).  Added: family "
+                       "nested-call = {start(), advance_by(0 / 1 s / 5 s / -1 s), advance_to(0 / 1 s / 3 s)} issued "
+                       "from inside an action x 3 positions in its body x 3 schedule variants x 3 due times of a "
+                       "second action x {start, advance_to, advance_by} (+ the same after stop() in the body), one "
+                       "third per scheduler (thorough: all); random-nested = random histories whose bodies contain "
+                       "such calls with probability 0.15 / 0.3 per command.  Oracle additions: an action logged "
+                       "while another is open (nested-run; not after a stop()-then-nested-call, which re-enters the "
+                       "loop), an action logged inside sleep() or during a top-level schedule/cancel/stop/sleep "
+                       "call.  non-trivial = distinct (world, c0, history) in which at least two actions ran")
     chk.cov["input_distribution"] = hist
     chk.add_samples([{"world": c[0], "c0": c[1], "history": c[2]} for c in cases[::max(1, len(cases) // 6)]])
     return chk.finish(
@@ -159,7 +271,11 @@ def run(chk):
                        "scheduleditem.py (validated by this run's correspondence, not extracted); heapq is "
                        "abstracted as a list sorted by the tuple order",
                        "harness/vt.py: instrumented subclass recording the disposables returned by "
-                       "schedule_absolute (observation only)"],
+                       "schedule_absolute (observation only)",
+                       "harness/vt.py g_history prints start()/advance_by(d >= 0) issued from inside an action as "
+                       "nothing and advance_by(d < 0) as the equally raising sleep(d) (basis: Core/VTimeNested.v, "
+                       "C28_nested_* theorems); histories with a nested advance_to or a nested call after stop() "
+                       "are judged by the oracle only"],
         assumptions=["time values are whole microseconds of moderate size (float<->datetime conversion exact)",
                      "single thread"])
 
@@ -173,6 +289,10 @@ def replay(chk, path):
     bad = vt.oracle_vt(d["world"], trace)
     print("history", json.dumps(d["history"]))
     print("observed", obs)
+    known = [b for b in bad if b[0] == "advance_to-target-equals-clock"]
     for sig, detail in bad:
         print("FAILS", sig, detail)
+    if bad:
+        print(f"VIOLATION property=C28 replay={path}" if len(known) < len(bad) else
+              f"KNOWN-FINDING: property=C28 replay={path} [{KNOWN_ADV_NOW}]")
     return 1 if bad else 0
